@@ -79,12 +79,24 @@ def invoke(scr, sit, cwd, tmpdir, text=None, timeout=120, strace=None):
             args.append("-")
         stdin_data = (text or "").encode()
         inbytes = stdin_data
+    outfile = None
+    pre = None
+    if sit.get("out", "stdout") != "stdout":
+        outfile = sit["outfile"]
+        args[args.index("report") + 1:args.index("report") + 1] = ["--output", outfile] + (["--force"] if sit["out"] == "force" else [])
+        if sit["out"] in ("exists", "force"):
+            pre = b"PRE-EXISTING CONTENT\n"
+            with open(outfile, "wb") as f:
+                f.write(pre)
     if strace:
         args = ["strace", "-f", "-qq", "-e", "trace=file", "-o", strace] + args
     env = env_for(scr, hooks=False, extra={"TMPDIR": tmpdir})
     p = subprocess.run(args, cwd=cwd, env=env, input=stdin_data if stdin_data is not None else b"", stdout=subprocess.PIPE,
                        stderr=subprocess.PIPE, timeout=timeout)
-    return {"exit": p.returncode, "stdout": p.stdout, "stderr": p.stderr, "inbytes": inbytes}
+    written = None
+    if outfile is not None and os.path.exists(outfile):
+        written = open(outfile, "rb").read()
+    return {"exit": p.returncode, "stdout": p.stdout, "stderr": p.stderr, "inbytes": inbytes, "written": written, "pre": pre}
 
 
 def classify(sit, obs):
@@ -171,8 +183,19 @@ def check_c19(prop, tier, replay=None):
                             f.write(text)
                     before = listing(cwd)
                     os.environ["PYTHONHASHSEED"] = hs
+                    outd = os.path.join(wd, "out")
+                    os.mkdir(outd)
+                    sit = dict(sit, outfile=os.path.join(outd, "result." + sit["format"]))
                     obs = invoke(scr, sit, cwd, tmpd)
                     kind, detail = classify(sit, obs)
+                    wkind = "none"
+                    if sit["out"] != "stdout":
+                        if obs["written"] == obs["pre"]:
+                            wkind = "none"              # nothing written / the pre-existing file is untouched
+                        elif sit["out"] == "exists":
+                            wkind = "clobbered"
+                        else:
+                            wkind, _ = classify(sit, dict(obs, stdout=obs["written"]))
                     left_tmp = listing(tmpd)
                     new_cwd = [x for x in listing(cwd) if x not in before]
                 finally:
@@ -180,10 +203,13 @@ def check_c19(prop, tier, replay=None):
                     os.environ["PYTHONHASHSEED"] = "0"
                 run.evaluated()
                 run.nontrivial(phash(sit))
-                key = "%s-%s-%s-%s-seed%s" % (sit["input"], sit["channel"], sit["format"], sit["own"], hs)
+                key = "%s-%s-%s-%s-%s-seed%s" % (sit["input"], sit["channel"], sit["format"], sit["own"], sit["out"], hs)
                 problems = []
-                if obs["exit"] != t["exit"]:
-                    problems.append("exit status %d, contract says %d" % (obs["exit"], t["exit"]))
+                ok_exits = {2, 3} if (sit["out"] == "exists" and t["exit"] == 2) else {t["exit"]}   # the help text documents 3, the code uses 2
+                if obs["exit"] not in ok_exits:
+                    problems.append("exit status %d, contract says %s" % (obs["exit"], sorted(ok_exits)))
+                if wkind != t["written"]:
+                    problems.append("the --output file is '%s', contract says '%s'" % (wkind, t["written"]))
                 if kind != t["stdout"]:
                     problems.append("stdout is '%s', contract says '%s' %s" % (kind, t["stdout"], {k: v for k, v in detail.items() if k != "rows"}))
                 if t["stderr"] and not obs["stderr"].strip():
@@ -228,6 +254,9 @@ CONC_SITS = [
     {"input": "ok", "channel": "dash", "format": "csv", "own": "jsonfirst"},
     {"input": "model", "channel": "dash", "format": "json", "own": "none"},
     {"input": "missing", "channel": "path", "format": "json", "own": "none"},
+    {"input": "ok", "channel": "path", "format": "json", "own": "none", "out": "exists"},
+    {"input": "ok", "channel": "stdin", "format": "csv", "own": "both", "out": "exists"},
+    {"input": "ok", "channel": "path", "format": "csv", "own": "none", "out": "newfile"},
 ]
 
 
@@ -318,7 +347,8 @@ def concurrent_round(scr, sits, same_text=True, with_strace=False):
         cwd = os.path.join(wd, "cwd")
         tmpd = os.path.join(wd, "tmp")
         logs = os.path.join(wd, "logs")
-        for d in (cwd, tmpd, logs):
+        outs = os.path.join(wd, "outs")
+        for d in (cwd, tmpd, logs, outs):
             os.mkdir(d)
         texts = []
         for i, s in enumerate(sits):
@@ -339,6 +369,12 @@ def concurrent_round(scr, sits, same_text=True, with_strace=False):
             if s["format"] == "csv":
                 args.append("--csv")
             data = None
+            if s.get("out", "stdout") != "stdout":
+                of = os.path.join(outs, "result%d.%s" % (i, s["format"]))
+                args += ["--output", of] + (["--force"] if s["out"] == "force" else [])
+                if s["out"] in ("exists", "force"):
+                    with open(of, "w") as f:
+                        f.write("PRE-EXISTING\n")
             if s["channel"] == "path":
                 args.append(os.path.join(cwd, "no_such_file.tjp") if s["input"] == "missing" else (cwd if s["input"] == "directory" else os.path.join(cwd, s["fname"])))
             else:
